@@ -493,6 +493,22 @@ func (r *propReport) writeEvidence(e *Engine, wall float64) {
 			"bounded_stand_ins":        r.bounded,
 		},
 	}
+	// a proof pack with a recorded finding reported by one of its bounded stand-ins: the
+	// obligations discharge, but the level is 'other' while the finding stays open
+	if r.nObl > 0 && level == "proof" {
+		open := 0
+		for _, b := range r.bounded {
+			if !b.Pass && r.findKnown("bounded:"+b.Name) != nil {
+				open++
+			}
+		}
+		if open > 0 {
+			level = "other"
+			ev["level"] = "other"
+			expl = fmt.Sprintf("%d of %d obligations discharged; %d recorded known finding(s) reported by bounded stand-ins stay open, so the level is 'other'", r.nDis, r.nObl, open)
+			ev["coverage"].(map[string]any)["explanation"] = expl
+		}
+	}
 	// a check that consists of bounded stand-ins only is an exhaustive exploration of a
 	// stated finite space, not a proof
 	if r.nObl == 0 && len(r.bounded) > 0 {
